@@ -507,6 +507,86 @@ fn main() {
         sp.done(true, "full product of the relation dimensions");
     }
 
+    //---------------------------------------------------------------- entry points
+    {
+        let sp = ctx.space("entrypoints",
+            "every public validation entry point of a certificate kind must give the verdict of its checked sibling: validate_X (wall clock) == validate_X_at(now); inspect_X + verify_X[_at] == validate_X_at; verify_ta_ref[_at] == verify_ta[_at]; for kind {ta, ca, ee, detached ee, router} x validity {2000..2100 (current), 2000..2001 (expired), 2100..2101 (future)} x relation {all fine, signed by another key, AKI of another key}; oracle: accept <=> current and relation fine; non-trivial = cases with exactly one violation");
+        use rpki::repository::x509::{Time, Validity};
+        let y = |yr: i32| Time::utc(yr, 1, 1, 0, 0, 0);
+        let ca_res = Res { v4: Claim::Blocks(vec![(0x0a00_0000, 0x0aff_ffff)]), v6: Claim::Missing, asn: Claim::Blocks(vec![(64496, 64511)]) };
+        let ca = valid_ca(&signer, &ta, TA_KEY, CA_KEY, ca_res.clone());
+        let mut cases = Vec::new();
+        for kind in 0..5 { for win in 0..3 { for rel in 0..3 { cases.push((kind, win, rel)) } } }
+        cases.par_iter().for_each(|&(kind, win, rel)| {
+            let (k, detached) = match kind { 0 => (Kind::Ta, false), 1 => (Kind::Ca, false), 2 => (Kind::Ee, false), 3 => (Kind::Ee, true), _ => (Kind::Router, false) };
+            let res = match k {
+                Kind::Ta => Res::all(),
+                Kind::Router => Res { v4: Claim::Missing, v6: Claim::Missing, asn: Claim::Blocks(vec![(64500, 64500)]) },
+                _ => Res { v4: Claim::Blocks(vec![(0x0a00_0000, 0x0a00_00ff)]), v6: Claim::Missing, asn: Claim::Blocks(vec![(64500, 64501)]) },
+            };
+            let mut spec = if k == Kind::Ta { Spec::ta(TA_KEY, res) } else { Spec::issued(k, LEAF_KEY, CA_KEY, signer.ski(CA_KEY), res, Overclaim::Refuse) };
+            spec.validity = match win { 0 => Validity::new(y(2000), y(2100)), 1 => Validity::new(y(2000), y(2001)), _ => Validity::new(y(2100), y(2101)) };
+            match rel { 1 => spec.signing_key = OTHER_KEY, 2 => spec.aki = Some(signer.ski(OTHER_KEY)), _ => {} }
+            let der = build_cert_der(&signer, &spec);
+            let dec = || Cert::decode(der.as_slice()).expect("decodes");
+            let want = win == 0 && rel == 0;
+            if (win != 0) as u8 + (rel != 0) as u8 == 1 { sp.nontrivial(1) }
+            let wit = |ep: &str| format!("kind={}{} window={} relation={} entry={ep}", kind_name(k), if detached { "(detached)" } else { "" }, ["current", "expired", "future"][win], ["fine", "signed-by-other", "aki-other"][rel]);
+            let now = Time::now();
+            let mut verdicts: Vec<(&str, Result<bool, String>)> = Vec::new();
+            match (k, detached) {
+                (Kind::Ta, _) => {
+                    verdicts.push(("validate_ta", guard(|| dec().validate_ta(tal(), true).is_ok())));
+                    verdicts.push(("validate_ta_at(now)", guard(|| dec().validate_ta_at(tal(), true, now).is_ok())));
+                    verdicts.push(("inspect_ta+verify_ta", guard(|| { let c = dec(); c.inspect_ta(true).is_ok() && c.verify_ta(tal(), true).is_ok() })));
+                    verdicts.push(("inspect_ta+verify_ta_at(now)", guard(|| { let c = dec(); c.inspect_ta(true).is_ok() && c.verify_ta_at(tal(), true, now).is_ok() })));
+                    verdicts.push(("inspect_ta+verify_ta_ref", guard(|| { let c = dec(); c.inspect_ta(true).is_ok() && c.verify_ta_ref(true).is_ok() })));
+                    verdicts.push(("inspect_ta+verify_ta_ref_at(now)", guard(|| { let c = dec(); c.inspect_ta(true).is_ok() && c.verify_ta_ref_at(true, now).is_ok() })));
+                }
+                (Kind::Ca, _) => {
+                    verdicts.push(("validate_ca", guard(|| dec().validate_ca(&ca, true).is_ok())));
+                    verdicts.push(("validate_ca_at(now)", guard(|| dec().validate_ca_at(&ca, true, now).is_ok())));
+                    verdicts.push(("inspect_ca+verify_ca", guard(|| { let c = dec(); c.inspect_ca(true).is_ok() && c.verify_ca(&ca, true).is_ok() })));
+                    verdicts.push(("inspect_ca+verify_ca_at(now)", guard(|| { let c = dec(); c.inspect_ca(true).is_ok() && c.verify_ca_at(&ca, true, now).is_ok() })));
+                }
+                (Kind::Ee, false) => {
+                    verdicts.push(("validate_ee", guard(|| dec().validate_ee(&ca, true).is_ok())));
+                    verdicts.push(("validate_ee_at(now)", guard(|| dec().validate_ee_at(&ca, true, now).is_ok())));
+                    verdicts.push(("inspect_ee+verify_ee", guard(|| { let c = dec(); c.inspect_ee(true).is_ok() && c.verify_ee(&ca, true).is_ok() })));
+                    verdicts.push(("inspect_ee+verify_ee_at(now)", guard(|| { let c = dec(); c.inspect_ee(true).is_ok() && c.verify_ee_at(&ca, true, now).is_ok() })));
+                }
+                (Kind::Ee, true) => {
+                    verdicts.push(("validate_detached_ee", guard(|| dec().validate_detached_ee(&ca, true).is_ok())));
+                    verdicts.push(("validate_detached_ee_at(now)", guard(|| dec().validate_detached_ee_at(&ca, true, now).is_ok())));
+                    verdicts.push(("inspect_detached_ee+verify_ee", guard(|| { let c = dec(); c.inspect_detached_ee(true).is_ok() && c.verify_ee(&ca, true).is_ok() })));
+                }
+                _ => {
+                    verdicts.push(("validate_router", guard(|| dec().validate_router(&ca, true).is_ok())));
+                    verdicts.push(("validate_router_at(now)", guard(|| dec().validate_router_at(&ca, true, now).is_ok())));
+                    verdicts.push(("inspect_router+verify_router", guard(|| { let c = dec(); c.inspect_router(true).is_ok() && c.verify_router(&ca, true).is_ok() })));
+                    verdicts.push(("inspect_router+verify_router_at(now)", guard(|| { let c = dec(); c.inspect_router(true).is_ok() && c.verify_router_at(&ca, true, now).is_ok() })));
+                }
+            }
+            // the pieces: verify_validity, verify_issuer_claim, verify_signature each decide their own condition
+            if k != Kind::Ta {
+                let c = dec();
+                verdicts.push(("verify_validity(now) [window]", guard(|| c.verify_validity(now).is_ok() == (win == 0)).map(|ok| if ok { want } else { !want })));
+                verdicts.push(("verify_issuer_claim [aki]", guard(|| c.verify_issuer_claim(&ca, true).is_ok() == (rel != 2)).map(|ok| if ok { want } else { !want })));
+                verdicts.push(("verify_signature [key]", guard(|| c.verify_signature(&ca, true).is_ok() == (rel != 1)).map(|ok| if ok { want } else { !want })));
+            }
+            for (ep, v) in verdicts {
+                sp.eval();
+                match v {
+                    Err(p) => ctx.fail("C01.entrypoints.nopanic", wit(ep), p),
+                    Ok(got) => { sp.outcome(if got { "accepted" } else { "rejected" });
+                        if got != want { ctx.fail(if want { "C01.entrypoints.accept" } else { "C01.entrypoints.reject" }, wit(ep), format!("entry point says {got}, model {want}")) } }
+                }
+            }
+        });
+        sp.sample_str(|| "kind=ee window=expired relation=fine entry=validate_ee -> rejected".into());
+        sp.done(true, "5 kinds x 3 windows x 3 relations x every public validation entry point");
+    }
+
     //---------------------------------------------------------------- trust anchors
     {
         let sp = ctx.space("ta",
